@@ -60,7 +60,9 @@ func (a AnonymousFlattenMangler) unmangleStruct(sf reflect.StructField, fvs []Fi
 	}
 	fvsIdx := 0
 	allNil := true
-	for i := 0; i < sf.Type.NumField(); i++ {
+	// stop once every hoisted value has been put back: fields that were
+	// never hoisted (unexported ones) may follow the last hoisted field.
+	for i := 0; i < sf.Type.NumField() && fvsIdx < len(fvs); i++ {
 		oft := sf.Type.Field(i)
 		if oft.Name == fvs[fvsIdx].Field.Name {
 			out.Field(i).Set(fvs[fvsIdx].Value)
